@@ -10,7 +10,8 @@ for name in "$@"; do
   git -C $W reset -q --hard; git -C $W clean -fdq -e target; git -C $W checkout -q --detach $HEAD
   demo_without=na; demo_with=na
   if [ -f $D/demo.rs ]; then
-    crate=$(grep -o 'crates/[a-z-]*/tests/demo_m[0-9]*\.rs' $D/agent_meta.json $D/meta.json 2>/dev/null | head -1 | cut -d: -f2 | cut -d/ -f2)
+    crate=$(grep -oh 'crates/[a-z-]*/tests' $D/agent_meta.json $D/meta.json 2>/dev/null | head -1 | cut -d/ -f2)
+    [ -z "$crate" ] && crate=$(grep -oh 'cargo test -p [a-z-]*' $D/agent_meta.json 2>/dev/null | head -1 | awk '{print $4}')
     [ -z "$crate" ] && crate=uplc
     mkdir -p $W/crates/$crate/tests
     cp $D/demo.rs $W/crates/$crate/tests/verif_demo.rs
